@@ -80,4 +80,60 @@ def wfDesc : Desc → Bool
        | none => true)
   | _ => true
 
+/-! ### count and length fields: capacity of the digits vs what the setter lets through
+
+    A count field (`NITFLoop._counts_bytes`, the 3-digit counts of `_ItemArrayHeaders`, NLUTS / NELUT) or a length field (the size prefix of
+    `Unstructured` / `UserHeaderType`, CEL of a TRE) of `width` decimal digits can announce at most `10^width - 1`.  What is WRITTEN into it
+    is `n + extra` where `n` is what the setter looks at (the number of items / `len(data)`) and `extra` what the encoder adds on top (the
+    3 OFL bytes of `UserHeaderType`: base.py `siz_frm.format(len(data) + self._ofl_len)`).  The setter refuses `n > limit`
+    (`Unstructured.data.fset`: `siz_lim = 10**self._size_len - 1`; `ImageBand.LUTD.fset`: 4 and 65536; `SymbolSegmentHeader.DLUT.fset`: 256)
+    or has no test at all (`NITFLoop.values.fset`, `UnknownTRE.__init__`): `limit = none`. -/
+
+structure Slot where
+  width : Nat
+  extra : Nat
+  limit : Option Nat
+deriving Repr, DecidableEq, Inhabited
+
+def capacity (w : Nat) : Nat := 10 ^ w - 1
+
+def setterAccepts (s : Slot) (n : Nat) : Bool :=
+  match s.limit with
+  | some l => decide (n ≤ l)
+  | none => true
+
+/-- the setter's limit keeps what is written within the digits of the field -/
+def slotOk (s : Slot) : Bool :=
+  match s.limit with
+  | some l => decide (l + s.extra ≤ capacity s.width)
+  | none => false
+
+/-- the count / length field as written: `'{0:0wd}'.format(n + extra)` -/
+def renderCount (s : Slot) (n : Nat) : Bytes := encInt s.width ((n + s.extra : Nat) : Int)
+
+/-! ### an element as a list of stored values; assignment to one field; a refused assignment leaves the element as it was -/
+
+def setAt : List Stored → Nat → Stored → List Stored
+  | [], _, _ => []
+  | _ :: t, 0, v => v :: t
+  | h :: t, i + 1, v => h :: setAt t i v
+
+def getDesc : List Desc → Nat → Option Desc
+  | [], _ => none
+  | d :: _, 0 => some d
+  | _ :: t, i + 1 => getDesc t i
+
+/-- `setattr(element, field i, x)`: `(new state, refused?)` -/
+def assignAt (ds : List Desc) (st : List Stored) (i : Nat) (x : Input) : List Stored × Bool :=
+  match getDesc ds i with
+  | none => (st, true)
+  | some d =>
+    match assign d x with
+    | some v => (setAt st i v, false)
+    | none => (st, true)
+
+def renderAll : List Desc → List Stored → Bytes
+  | d :: ds, v :: vs => render d v ++ renderAll ds vs
+  | _, _ => []
+
 end Sarpy.Spec.NitfAssign
